@@ -142,11 +142,13 @@ def make_cases(rng, tier):
             # new calculations also try to re-create a column that exists further upstream (hidden by a projection)
             news = [("un", o) for o in op_menu(ccols, fresh_n if fresh_n not in ccols else N(8), more_tags=[c for c in cols if c not in ccols])]
             # joins: fixed operands sharing a key column, with and without an extra / shared non-key column
-            for fcols in ([K(1)], [K(1), K(3)], [K(1), N(1)], [K(1), N(7)], [K(3)]):
+            # (fixed on either side; [K1, K2] shares a KEY column that a projection of the target may hide)
+            for fcols in ([K(1)], [K(1), K(3)], [K(1), N(1)], [K(1), N(7)], [K(3)], [K(1), K(2)]):
                 frows = consistent_rows(fcols, [(0,) * len([c for c in fcols if c.is_key]), (1,) * len([c for c in fcols if c.is_key])])
-                news.append(("join", fcols, frows, None))
-                if K(1) in fcols and K(1) in ccols:
-                    news.append(("join", fcols, frows, ("cmp", "ge", ("ref", K(1)), ("lit", 1))))
+                for is_lhs in (False, True):
+                    news.append(("join", fcols, frows, None, is_lhs))
+                    if K(1) in fcols and K(1) in ccols:
+                        news.append(("join", fcols, frows, ("cmp", "ge", ("ref", K(1)), ("lit", 1)), is_lhs))
             for new in news:
                 env = []
                 try:
@@ -155,10 +157,10 @@ def make_cases(rng, tier):
                         if isinstance(new_obj, dr.Identity):
                             continue
                     else:
-                        _, fcols, frows, pred = new
+                        _, fcols, frows, pred, is_lhs = new
                         fixed = ENG.make_leaf(set(fcols), payload=iteration.RowSequence(frows), name="F99")
                         REG.names["F99"] = FIXED_ID
-                        j = dr.Join(enc.ipred(pred) if pred else dr.Predicate.literal(True)).partial(fixed)
+                        j = dr.Join(enc.ipred(pred) if pred else dr.Predicate.literal(True)).partial(fixed, is_lhs=is_lhs)
                         new_obj, _pe = j._begin_apply(current, None)
                         env = [f"({FIXED_ID}%positive, {crows(frows)})"]
                 except (dr.ColumnError, dr.EngineError):
